@@ -6,6 +6,7 @@
 package determinism
 
 import (
+	"os"
 	"bytes"
 	"fmt"
 	"sort"
@@ -75,10 +76,10 @@ func (Engine) Describe() simcore.Description {
 }
 
 var txKinds = []string{"send", "gamm-create", "gamm-join", "gamm-exit", "gamm-swap", "pm-swap", "pm-split", "cl-create-pool", "cl-create-pos", "cl-withdraw", "cl-collect",
-	"lock", "unlock", "gauge-create", "gauge-add", "tf-create", "tf-mint", "tf-burn", "tf-admin", "stake-delegate", "stake-undelegate", "stake-withdraw", "sf-delegate", "sf-undelegate"}
+	"lock", "unlock", "gauge-create", "gauge-add", "tf-create", "tf-mint", "tf-burn", "tf-admin", "stake-delegate", "stake-undelegate", "stake-withdraw", "sf-delegate", "sf-undelegate", "gamm-ghost-swap", "pm-ghost-swap"}
 
-var earlyWeights = []int{4, 14, 4, 1, 4, 3, 1, 10, 12, 1, 1, 8, 1, 5, 1, 8, 4, 1, 1, 4, 1, 1, 6, 0}
-var lateWeights = []int{6, 4, 5, 4, 10, 10, 5, 3, 8, 5, 6, 7, 5, 5, 4, 3, 5, 3, 2, 4, 3, 3, 5, 2}
+var earlyWeights = []int{4, 14, 4, 1, 4, 3, 1, 10, 12, 1, 1, 8, 1, 5, 1, 8, 4, 1, 1, 4, 1, 1, 3, 0, 1, 1}
+var lateWeights = []int{6, 4, 5, 4, 10, 10, 5, 3, 8, 5, 6, 7, 5, 5, 4, 3, 5, 3, 2, 4, 3, 3, 3, 2, 1, 1}
 
 func isTx(op string) bool {
 	for _, k := range txKinds {
@@ -101,6 +102,7 @@ func (Engine) Generate(r *simcore.RNG, tier string, idx int) *simcore.Plan {
 	if r.Chance(0.3) {
 		p.Config["mint_reduction"] = 3
 	}
+	p.Config["superfluid"] = int64(r.Intn(2)) // pool 1's shares are a superfluid asset
 	faults := idx%2 == 1
 	p.Config["replica_c"] = 0
 	if faults {
@@ -198,11 +200,11 @@ type world struct {
 	maxGas        int64
 }
 
-func mutateGenesis(mintReduction int64) func(cdc codec.JSONCodec, gs app.GenesisState) {
-	return func(cdc codec.JSONCodec, gs app.GenesisState) { mutateGenesisWith(cdc, gs, mintReduction) }
+func mutateGenesis(mintReduction int64, superfluid bool) func(cdc codec.JSONCodec, gs app.GenesisState) {
+	return func(cdc codec.JSONCodec, gs app.GenesisState) { mutateGenesisWith(cdc, gs, mintReduction, superfluid) }
 }
 
-func mutateGenesisWith(cdc codec.JSONCodec, gs app.GenesisState, mintReduction int64) {
+func mutateGenesisWith(cdc codec.JSONCodec, gs app.GenesisState, mintReduction int64, superfluid bool) {
 	var tg txfeestypes.GenesisState
 	cdc.MustUnmarshalJSON(gs[txfeestypes.ModuleName], &tg)
 	tg.Basedenom = "uosmo"
@@ -268,7 +270,9 @@ func mutateGenesisWith(cdc codec.JSONCodec, gs app.GenesisState, mintReduction i
 
 	var sfg superfluidtypes.GenesisState
 	cdc.MustUnmarshalJSON(gs[superfluidtypes.ModuleName], &sfg)
-	sfg.SuperfluidAssets = []superfluidtypes.SuperfluidAsset{{Denom: "gamm/pool/1", AssetType: superfluidtypes.SuperfluidAssetTypeLPShare}}
+	if superfluid {
+		sfg.SuperfluidAssets = []superfluidtypes.SuperfluidAsset{{Denom: "gamm/pool/1", AssetType: superfluidtypes.SuperfluidAssetTypeLPShare}}
+	}
 	gs[superfluidtypes.ModuleName] = cdc.MustMarshalJSON(&sfg)
 }
 
@@ -363,7 +367,7 @@ func executeOnce(run *simcore.Run) []*violation {
 		fund = fund.Add(sdk.NewCoin(d, osmomath.NewInt(10_000_000_000_000_000)))
 	}
 	w := &world{run: run, txCfg: app.GetEncodingConfig().TxConfig, maxGas: p.Cfg("maxgas", 120_000_000)}
-	w.g = simnet.BuildGenesis(simnet.GenesisConfig{Accounts: int(p.Cfg("accounts", 4)), Validators: int(p.Cfg("validators", 2)), Fund: fund, MaxBlockGas: w.maxGas, Mutate: mutateGenesis(p.Cfg("mint_reduction", 156))})
+	w.g = simnet.BuildGenesis(simnet.GenesisConfig{Accounts: int(p.Cfg("accounts", 4)), Validators: int(p.Cfg("validators", 2)), Fund: fund, MaxBlockGas: w.maxGas, Mutate: mutateGenesis(p.Cfg("mint_reduction", 156), p.Cfg("superfluid", 1) == 1)})
 	var err error
 	if w.A, err = simnet.NewReplicaFromGenesis("A", w.g); err != nil {
 		panic(err)
@@ -618,7 +622,7 @@ func (w *world) block(st simcore.Step, dt time.Duration, inBurst bool) {
 	if w.epochTicked(ra) {
 		run.Probe("epoch-boundary")
 	}
-	if w.compare("B", ra, rb, w.B) {
+	if w.compare("B", ra, rb, w.B, kept) {
 		return
 	}
 	if w.C != nil {
@@ -630,7 +634,7 @@ func (w *world) block(st simcore.Step, dt time.Duration, inBurst bool) {
 			rc = w.C.FinalizeAndCommit(blk)
 		case st.F == "crash" && !inBurst:
 			first := w.C.Finalize(blk)
-			if w.compare("C-before-crash", ra, first, nil) {
+			if w.compare("C-before-crash", ra, first, nil, kept) {
 				return
 			}
 			w.C.Restart() // drops the finalized, uncommitted block
@@ -639,7 +643,7 @@ func (w *world) block(st simcore.Step, dt time.Duration, inBurst bool) {
 		default:
 			rc = w.C.FinalizeAndCommit(blk)
 		}
-		if w.compare("C", ra, rc, w.C) {
+		if w.compare("C", ra, rc, w.C, kept) {
 			return
 		}
 	}
@@ -649,6 +653,15 @@ func (w *world) block(st simcore.Step, dt time.Duration, inBurst bool) {
 		if w.kvDiffPending && !rd.Halted() {
 			w.kvDiffPending = false
 			w.kvDiff()
+		}
+	}
+	if os.Getenv("VERIF_C19_DEBUG") != "" { // investigation aid: is the poolmanager route cache warm for the next (non-existent) pool id?
+		for _, r := range []*simnet.Replica{w.A, w.B, w.C} {
+			if r != nil {
+				id := r.App.PoolManagerKeeper.GetNextPoolId(r.QueryCtx())
+				_, err := r.App.PoolManagerKeeper.GetPoolModule(r.QueryCtx(), id)
+				fmt.Fprintf(os.Stderr, "h=%d %s: route cache for non-existent pool %d warm=%v\n", w.h, r.Name, id, err == nil)
+			}
 		}
 	}
 	if !inBurst || w.h%120 == 0 {
@@ -725,7 +738,7 @@ func evStr(es []abci.Event, i int) string {
 
 // compare checks a replica's block result against A's: bit-identical committed
 // state and identical per-transaction results. other==nil skips the store diff.
-func (w *world) compare(role string, ra, rb *simnet.BlockResult, other *simnet.Replica) bool {
+func (w *world) compare(role string, ra, rb *simnet.BlockResult, other *simnet.Replica, kept []pendingTx) bool {
 	if rb.Halted() {
 		return w.fail("finalize-outcome", role, "height %d: A executes the block but %s cannot: err=%v panic=%.300v", w.h, role, rb.Err, rb.Panic)
 	}
@@ -740,16 +753,15 @@ func (w *world) compare(role string, ra, rb *simnet.BlockResult, other *simnet.R
 		case x.GasWanted != y.GasWanted:
 			field, detail = "gas-wanted", fmt.Sprintf("%d vs %d", x.GasWanted, y.GasWanted)
 		case x.GasUsed != y.GasUsed:
-			field, detail = "gas-used", fmt.Sprintf("%d vs %d", x.GasUsed, y.GasUsed)
+			field, detail = "gas-used", fmt.Sprintf("%d vs %d (code %s/%d; logs: %.200q | %.200q)", x.GasUsed, y.GasUsed, x.Codespace, x.Code, x.Log, y.Log)
 		default:
 			if d := eventsDiff(x.Events, y.Events); d != "" {
 				field, detail = "events", d
 			}
 		}
 		if field != "" {
-			if w.fail("tx-result", role+"/"+field, "height %d tx %d: replicas A and %s, fed the same blocks, report a different %s: %s", w.h, i, role, field, detail) {
-				return true
-			}
+			// not the end of the run: whether the committed state still agrees is decided by the app hash below
+			w.report("tx-result", role+"/"+field+"/"+kept[i].st.Op, "height %d tx %d (%s): replicas A and %s, fed the same blocks, report a different %s: %s", w.h, i, kept[i].st.Op, role, field, detail)
 		}
 		if x.Log != y.Log && x.Code != 111222 {
 			w.run.Count("info/log-differs")
